@@ -358,6 +358,13 @@ class Tracker(explore.System):
             viol.append(("exception:" + exc_sig(raised), {**case, "exc": repr(raised)}))
         elif out is not burst:
             viol.append(("returned_object_is_not_the_burst", case))
+        else:
+            # tracking labels the burst (voice burst id, sequence and stream numbers); it does not change what the burst is
+            try:
+                if out.as_bytes() != ALPHA[name][0]:
+                    viol.append(("returned_burst_serialises_differently", case))
+            except Exception as e:  # noqa: BLE001
+                viol.append(("returned_burst_cannot_be_serialised:" + exc_sig(e), {**case, "exc": repr(e)}))
         # rule 6: observer isolation -- both terminal-level recorders and the slot recorder saw the same events
         strip = lambda l: [(e[0], e[1], e[2], e[3]) for e in l]  # noqa: E731
         if strip(self.rec_a.events) != strip(self.rec_b.events):
